@@ -196,7 +196,7 @@ def run(ctx: Check) -> int:
     from harness import runstate as R
     ctx.prove(MODULE, REQUIRED)
     pr = R.probe()
-    cfg = (True, pr["clocks"], pr["prev"])
+    cfg = dict(pr, guard=True)
     ctx.extra["tree_variant"] = pr
     runner = R.Runner("c06", cfg)
     corpus = [c for c in load_corpus("C06")] or [WITNESS]
@@ -224,7 +224,7 @@ def run(ctx: Check) -> int:
     if all_mout and len(all_mout) == len(all_cases):
         def mutant(c):
             ls = list(runner.lines(c))
-            ls[0] = R.cfg_line(False, cfg[1], cfg[2], "c06")
+            ls[0] = R.cfg_line(dict(cfg, guard=False), "c06")
             return ls
         sel = streams["corpus"] + streams["window"]
         sel_out = all_mout[:len(streams["corpus"])]
@@ -245,7 +245,7 @@ def search(ctx: Check) -> None:
     from harness import runstate as R
     for c in [WITNESS] + [R.gen_session(ctx.rng, 40) for _ in range(ctx.n(300, 3000))]:
         c.setdefault("quiet", True)
-        _, _, recs = R.execute(c, "c06", (True, False, False))
+        _, _, recs = R.execute(c, "c06", dict(guard=True))
         for f in oracle(c, recs):
             ctx.fail(f)
         if ctx.failures:
@@ -259,7 +259,7 @@ def replay(obj) -> int:
         print(json.dumps(obj, indent=1)[:2000])
         return 0
     pr = R.probe()
-    cfg = (True, pr["clocks"], pr["prev"])
+    cfg = dict(pr, guard=True)
     lines, outs, recs = R.execute(case, "c06", cfg)
     mout = drive("RunState", [lines])[0]
     for ln, a, b in zip(lines, outs, mout):
